@@ -77,7 +77,10 @@ class FlowAddon:
 
 
 def setup_caps(region):
-    region.eq_manager.clear()          # shared region object: no cached poll response from an earlier path
+    # shared region object: no cached poll response from an earlier path.  The state is constructed directly rather than
+    # through EventQueueManager.clear() (repository code: a clear() that forgets less must not leak between paths)
+    from hippolyzer.lib.proxy.region import EventQueueManager
+    region.eq_manager = EventQueueManager(region)
     region.caps.clear()
     region.caps["Seed"] = (CapType.NORMAL, "https://test.localhost:4/foo")
     region.register_cap("EventQueueGet", "https://sim.example/eq")
@@ -88,7 +91,7 @@ def setup_caps(region):
     region.register_cap("FetchInventory2", "https://sim.example/cap/fetch")
     if NEIGHBOUR.circuit is not None:
         raise AssertionError("fixture: the neighbour must not have a circuit")
-    NEIGHBOUR.eq_manager.clear()
+    NEIGHBOUR.eq_manager = EventQueueManager(NEIGHBOUR)
     NEIGHBOUR.caps.clear()
     NEIGHBOUR.caps["Seed"] = (CapType.NORMAL, "https://test.localhost:4/seednb")
     NEIGHBOUR.register_cap("EventQueueGet", "https://nb.example/eq")
